@@ -263,6 +263,11 @@ def k_analytic(params):
             kb = int(np.searchsorted(tt, b, side="right") - 1)
             kb = min(max(kb, 0), len(tt) - 2)
             hk = float(tt[kb + 1] - tt[kb])
+            if interp == "cubic" and grid != "uniform":
+                # the cubic scheme estimates slopes by differences over the neighbouring intervals: its error on a non-uniform grid is governed by the
+                # longest of the three intervals involved (still O(h^2) locally; the statement promises the faster rate on uniform grids only)
+                lo_i, hi_i = max(kb - 1, 0), min(kb + 2, len(tt) - 1)
+                hk = float(np.max(np.diff(tt[lo_i:hi_i + 1])))
             whk = w * hk
             edge_k = kb < 2 or kb > len(tt) - 4
             if interp == "cubic" and grid == "uniform" and not edge_k:
